@@ -442,6 +442,39 @@ def check_exists_drop(ctx):
             ctx.check("C18-e", len(rets) == 1 and A.is_const(deref_on_path(p, rets[0][1].value, rets[0][0])[0], False), ce,
                       "cache_exists does not return False when recompute is set [%s]" % p.describe(),
                       detail="recompute => cache_exists() is False", construct="recompute-path", path=p)
+    # a stored flow is found whenever its file is there: nothing but the absence (unreadability) of the file itself -- and
+    # recompute -- may make cache_exists answer False (an empty flow is a complete flow too: its file has zero length)
+    rp0 = reader_path_exprs(ctx).get("_load_flow")
+    EXIST = ("os.access", "os.path.exists", "os.path.isfile", "os.path.lexists")
+
+    def exist_test(t):
+        return isinstance(t, ast.Call) and res.canon(t.func) in EXIST and t.args and A.src(t.args[0]) == rp0
+    n_plain = 0
+    for p in P.paths_of(ce):
+        if p.end != "return" or any(A.is_self_attr(t, "_recompute") and pol for t, pol in p.literals()):
+            continue
+        n_plain += 1
+        r = [x for x in p.stmts() if isinstance(x, ast.Return)][-1]
+        v = r.value
+        if isinstance(v, ast.Name):
+            ds = [x for x in p.stmts() if isinstance(x, ast.Assign) and any(isinstance(t, ast.Name) and t.id == v.id for t in x.targets)]
+            v = ds[-1].value if ds else v
+        lits = p.literals()
+        absent = any(exist_test(t) and pol is False for t, pol in lits)
+        present = any(exist_test(t) and pol is True for t, pol in lits)
+        if isinstance(v, ast.Constant) and v.value is False:
+            ok = absent
+            why = "answers False on a path [%s] that has not found the file absent" % p.describe(3)
+        elif isinstance(v, ast.Constant) and v.value is True:
+            ok = present
+            why = "answers True on a path [%s] that has not found the file" % p.describe(3)
+        else:
+            ok = exist_test(v) or (isinstance(v, ast.BoolOp) and isinstance(v.op, ast.And) and all(exist_test(x) for x in v.values))
+            why = "answers `%s`, which is not a test for the file %s itself" % (A.short(v, 60), rp0)
+        ctx.check("C18-e", ok, r, "cache_exists %s: a complete stored flow (for an empty flow: a zero-length file) would be taken for "
+                  "missing, upstream pulled again and the stored flow overwritten" % why,
+                  detail="cache_exists = the file is there [%s]" % p.describe(2), construct="exists-condition:%s" % A.short(v, 40), path=p)
+    ctx.instances_floor("C18-e/plain", n_plain, 1, "paths of cache_exists without recompute")
     reads = [x for x in A.walk_local(ce) if isinstance(x, ast.Attribute) and A.is_self_attr(x, "_recompute")]
     if not reads:
         ctx.violation("C18-e", ce, "cache_exists never looks at self._recompute: recompute=True would replay the stored flow "
@@ -497,6 +530,8 @@ _OLD_WRITER = '''        with open(self._filename, "wb") as f:
 '''
 
 VARIANTS = [
+    M("exists-needs-nonempty-file", "lena/flow/cache.py", "        return os.access(self._filename, os.R_OK)", "        if not os.access(self._filename, os.R_OK):\n            return False\n        return os.path.getsize(self._filename) > 0", ["C18-e"]),
+    TW("exists-two-steps", "lena/flow/cache.py", "        return os.access(self._filename, os.R_OK)", "        if not os.access(self._filename, os.R_OK):\n            return False\n        return True"),
     M("drop-guarded-by-cache-exists", "lena/flow/cache.py", "        try:\n            os.remove(self._filename)\n        except OSError as err:", "        if not self.cache_exists():\n            return\n        try:\n            os.remove(self._filename)\n        except OSError as err:", ["C18-e"]),
     TW("drop-guarded-by-file-test", "lena/flow/cache.py", "        try:\n            os.remove(self._filename)\n        except OSError as err:", "        if not os.path.exists(self._filename):\n            return\n        try:\n            os.remove(self._filename)\n        except OSError as err:"),
     V("mutant", "revert-fix-open-final-name", None, None, None, ["C18-a"], edits=[
